@@ -3782,3 +3782,60 @@ pub fn c13_request_flight(nd: &mut Nondet) {
         let _ = failures_expected;
     }
 }
+
+// ------------------------------------------------------------------------------------------ C19 Kademlia messages
+use litep2p::protocol::libp2p::kademlia::message::KademliaMessage;
+
+/// C19 (Kademlia messages): what the library's own encoders produce decodes to what was encoded, and every truncation
+/// and single-byte damage of such an encoding is answered with a value or `None`, never a panic.
+pub fn c19_kademlia_message(nd: &mut Nondet) {
+    let kind = nd.choose("message", 6);
+    let key = vec![7u8, 8, 9];
+    let rkey = RecordKey::from(key.clone());
+    let value = vec![1u8, 2];
+    let publisher = if nd.bool("has_publisher") { Some(nd.peer_id_fixed(5)) } else { None };
+    let mut record = Record::new(rkey.clone(), value.clone());
+    record.publisher = publisher;
+    let closer = KademliaPeer::new_verif(nd.peer_id_fixed(2), key_bytes(1), ConnectionType::NotConnected);
+    let encoded: Vec<u8> = match kind {
+        0 => KademliaMessage::find_node(key.clone()).to_vec(),
+        1 => KademliaMessage::put_value(record.clone()).to_vec(),
+        2 => KademliaMessage::get_record(rkey.clone()).to_vec(),
+        3 => KademliaMessage::find_node_response(&key, vec![closer.clone()]),
+        4 => KademliaMessage::get_providers_request(rkey.clone()).to_vec(),
+        _ => KademliaMessage::put_value_response(rkey.clone(), value.clone()).to_vec(),
+    };
+    check("c19k.encoders-produce-something", !encoded.is_empty());
+    let damage = nd.choose("damage", 3);
+    let mut bytes = encoded.clone();
+    match damage {
+        1 => { let at = nd.choose("cut_at", encoded.len() as u64) as usize; bytes.truncate(at); }
+        2 => {
+            let at = nd.choose("flip_at", encoded.len() as u64) as usize;
+            let mask = match nd.choose("mask", 3) { 0 => 0x01u8, 1 => 0x80, _ => 0xff };
+            bytes[at] ^= mask;
+        }
+        _ => {}
+    }
+    let decoded = KademliaMessage::from_bytes(BytesMut::from(&bytes[..]), 20);
+    if damage != 0 {
+        if decoded.is_some() { cover("c19k.damaged.accepted"); } else { cover("c19k.damaged.rejected"); }
+        return;
+    }
+    cover("c19k.roundtrip");
+    match (kind, decoded) {
+        (0, Some(KademliaMessage::FindNode { target, peers })) => check("c19k.find-node-roundtrip", target == key && peers.is_empty()),
+        (1, Some(KademliaMessage::PutValue { record: r })) | (5, Some(KademliaMessage::PutValue { record: r })) => {
+            check("c19k.record-roundtrip", r.key == rkey && r.value == value && r.expires.is_none());
+            check("c19k.record-publisher-roundtrip", r.publisher == if kind == 1 { publisher } else { None });
+        }
+        (2, Some(KademliaMessage::GetRecord { key: k, record: r, peers })) => check("c19k.get-record-roundtrip", k == Some(rkey.clone()) && r.is_none() && peers.is_empty()),
+        (3, Some(KademliaMessage::FindNode { target, peers })) => {
+            // a peer without any address is not handed on by the decoder or is handed on with its id: both keep the target
+            check("c19k.find-node-response-roundtrip", target == key && peers.len() <= 1);
+            if peers.len() == 1 { check("c19k.closer-peer-id-roundtrip", peers[0].peer_id_verif() == closer.peer_id_verif()); }
+        }
+        (4, Some(KademliaMessage::GetProviders { key: k, peers, providers })) => check("c19k.get-providers-roundtrip", k == Some(rkey.clone()) && peers.is_empty() && providers.is_empty()),
+        _ => check("c19k.own-encoding-decodes-to-the-same-kind", false),
+    }
+}
